@@ -15,6 +15,8 @@
 //	                reads / writes again,
 //	part "failmod" — a privileged metadata change that fails at the Put step (vetoing
 //	                PrePut hook, read-only runtime provider), then every observer path,
+//	part "ws"     — the API message cells over the real websocket endpoint
+//	                (module system started, api main handler served by httptest),
 //	part "hist"   — PRNG-generated histories of privileged writes and observer
 //	                operations with persistent (cached) observer interfaces.
 //
@@ -74,6 +76,7 @@ func childSpecs(cfg vlib.Cfg) []spec {
 				}
 				out = append(out, spec{Tier: cfg.Tier, Seed: cfg.Seed, Part: "reflag", Backend: be, Shadow: sd, Round: round})
 				out = append(out, spec{Tier: cfg.Tier, Seed: cfg.Seed, Part: "failmod", Backend: be, Shadow: sd, Round: round})
+				out = append(out, spec{Tier: cfg.Tier, Seed: cfg.Seed, Part: "ws", Backend: be, Shadow: sd, Round: round})
 			}
 		}
 	}
@@ -96,6 +99,8 @@ func main() {
 	rep.Rule("table: every cell (backend x shadow-delete x flag set {none,secret,crownjewel,both} x how the flag was set x record kind x observer {4 Local/Internal combinations x cache off/on, external API} x read/write path) once per round, fresh key and unique random tokens per cell; " +
 		"reflag: flag set x observer x cache x operation after the observer legitimately read the then-unflagged record; " +
 		"failmod: flag set x failing privileged modifier (5) x failure mechanism (PrePut veto, read-only runtime provider) x plain/cached actor, then get/query/subscription/API/delete probes by every non-privileged observer; " +
+		"ws: flag set x how flagged x API message kind over the real /api/database/v1 websocket endpoint; " +
+		"how flagged now includes privileged PutNew of a pre-flagged record, PutNew with AlwaysMake* options and load + PutNew; " +
 		"table also holds non-privileged observers created with DelayCachedWrites on the batch-capable storages (put, putmany, held-back write + flush / + eviction); " +
 		"hist: PRNG histories over 6 keys with persistent observers. A case is distinct by its cell signature (table/reflag) or by the hash of its operation script (hist); all cells are non-trivial (each performs at least one operation through the observer on a record written by the privileged side).")
 
@@ -135,7 +140,7 @@ func main() {
 	rep.Set("children_done", done)
 	rep.Set("cells_expected", wantCells)
 	if cfg.Replay == "" {
-		got := int(rep.Counter("cells_table") + rep.Counter("cells_reflag") + rep.Counter("cells_failmod"))
+		got := int(rep.Counter("cells_table") + rep.Counter("cells_reflag") + rep.Counter("cells_failmod") + rep.Counter("cells_ws"))
 		rep.Floor(got == wantCells, "executed %d of %d table/reflag cells", got, wantCells)
 		dec := int(rep.Counter("cells_decided"))
 		rep.Floor(dec*10 >= wantCells*9, "only %d of %d table/reflag cells were decided (the rest is inconclusive)", dec, wantCells)
@@ -191,6 +196,8 @@ func childMain(dir string) {
 		w.runReflag()
 	case "failmod":
 		w.runFailmod()
+	case "ws":
+		w.runWS()
 	case "hist":
 		w.runHist()
 	default:
